@@ -211,6 +211,62 @@ func init() {
 		// the text that is rendered under a name is the text of the template registered under THAT name, also when the
 		// same tree is registered under several names and one of them is given another template later (regfree.go)
 		regFreePairings(r, "", "a template's text is rendered under a name it was not registered under (or not the text most recently registered under that name)", 2, r.N(600, 20000))
+		// the file entry point: ParseFile(name) is Parse(contents), final line break and all
+		parseFileRel(r, "")
+		// prefix / suffix texts that contain the keywords themselves, and keyword-like words: the LAST keyword of the
+		// tag starts the suffix (parser oracle on the printed AST; Go output vs model on the dumped tree)
+		var pcases []*RCase
+		for _, pre := range []string{"[ sfx ]", "a suffix b", "x prefix y", "pfx", "( sfx", "sfx )", "<b class=\"sfx\">"} {
+			for _, suf := range []string{"!", "</b>", "sfxx", "; sfx-like", "pfx"} {
+				for _, kw := range [][2]string{{"pfx", "sfx"}, {"prefix", "suffix"}, {"pfx", "suffix"}} {
+					body := []TNode{Text{"<"}, Print{Path: "si", Pre: pre, Suf: suf, PreKW: kw[0], SufKW: kw[1]}, Text{">"}, Print{Path: "nope", Pre: pre, Suf: suf, PreKW: kw[0], SufKW: kw[1]}}
+					c := &RCase{Tpls: []TplDef{{Key: "main", Src: Source(body), KeepFmt: true, Ast: body}}, Meta: map[string]any{"keyword-in-prefix": pre, "suffix": suf}}
+					c.Ops = []SOp{{Kind: "static", Name: "si", Val: int64(7)}, {Kind: "render", Key: "main"}}
+					pcases = append(pcases, c)
+					r.Dist["keyword-in-prefix"]++
+				}
+			}
+		}
+		// the square-bracket mode of counter loops ends with the loop however the loop ends (exit, an error, a failing
+		// writer): an indexed path OUTSIDE counter loops names nothing and prints nothing, in the same render (the loop
+		// sits in an included template) and in the next one on the same context
+		for _, loop := range []string{`{% for i := 0; i < 3; i++ %}{%= i %}{% exit %}{% endfor %}`, `{% for i := 0; i < 3; i++ %}{%= i %}{% include c01nosuch %}{% endfor %}`,
+			`{% for i := 0; i < 3; i++ %}{%= i %}{% endfor %}`, `{% for i := 0; i < 3; i++ sep , %}{% for j := 0; j < 2; j++ %}{% exit %}{% endfor %}{% endfor %}`} {
+			after := `[{%= lst[k] pfx < sfx > %}|{%= user.Finance.History[k].Comment prefix ( suffix ) %}|{%= lst[one] %}]`
+			c := &RCase{Tpls: []TplDef{{Key: "loop", Src: loop, KeepFmt: true}, {Key: "after", Src: after, KeepFmt: true}, {Key: "host", Src: `{% include loop %}` + after, KeepFmt: true}},
+				Meta: map[string]any{"bracket-mode-after-loop": loop}}
+			c.Ops = []SOp{{Kind: "strs", Name: "lst", Val: []string{"p", "q"}}, {Kind: "static", Name: "k", Val: int64(1)}, {Kind: "static", Name: "one", Val: int64(1)},
+				{Kind: "obj", Name: "user", Val: UserSpec{Id: "u", HasFinance: true, History: []History{{1, 1, "c0"}, {2, 2, "c1"}}}},
+				{Kind: "render", Key: "loop"}, {Kind: "render", Key: "after"}, {Kind: "render", Key: "host"}, {Kind: "render", Key: "loop", FailAt: 2}, {Kind: "render", Key: "after"},
+				{Kind: "render", Key: "loop", FailAt: 3}, {Kind: "render", Key: "after"}}
+			pcases = append(pcases, c)
+			r.Dist["bracket-mode-after-loop"]++
+		}
+		runSessions(r, pcases, outputDiffers)
+		// (the parser oracle skips prefixes that contain a keyword; stated directly on the real engine: the prefix is what
+		// stands between the prefix keyword and the LAST suffix keyword of the tag, the suffix what follows that one)
+		for _, pre := range []string{"[ sfx ]", "a suffix b", "( sfx", "sfx )", "<b class=\"sfx\">", "pfx", "["} {
+			for _, suf := range []string{"!", "</b>", "sfxx", ")"} {
+				for _, kw := range [][2]string{{"pfx", "sfx"}, {"prefix", "suffix"}, {"pfx", "suffix"}, {"prefix", "sfx"}} {
+					src := "<{%= si " + kw[0] + " " + pre + " " + kw[1] + " " + suf + " %}|{%= nope " + kw[0] + " " + pre + " " + kw[1] + " " + suf + " %}>"
+					want := "<" + pre + "7" + suf + "|>"
+					key, err, pan := regTpl(src, true)
+					var got rendered
+					if err == nil && pan == "" {
+						ctx := dyntpl.NewCtx()
+						ctx.SetStatic("si", 7)
+						got = renderSafe(key, ctx)
+					}
+					sig := "prefix-with-keyword " + src
+					r.Count(sig, true)
+					r.Dist["prefix-with-keyword"]++
+					if err != nil || pan != "" || got.Err != nil || got.Panic != "" || string(got.Out) != want {
+						r.Violate(sig, "a print tag whose prefix text contains a suffix keyword does not render prefix, value and suffix as written (the last suffix keyword starts the suffix)",
+							map[string]any{"source": src, "si": 7, "output": string(got.Out), "expected": want, "error": got.ErrStr(), "parse_error": fmt.Sprint(err)})
+					}
+				}
+			}
+		}
 	}
 	props["C02"] = func(r *Run) {
 		r.Rule = "random nestings of if/else, ternary and both switch forms over all six operators, var-op-literal / literal-op-var / var-op-var, every scalar kind, literals below/at/above the value, len() and helper conditions, " +
@@ -292,7 +348,22 @@ func init() {
 				r.Dist["indexed-right-operand"]++
 			}
 		}
+		// a switch with an argument and SEVERAL cases naming variables: every case is compared with its own variable's
+		// current value (first match wins), wherever the matching one stands
+		for _, st := range []int32{10, 78, 1078, 5, 0} {
+			for _, cs := range []string{`{% case lo %}L{% case hi %}H{% default %}D`, `{% case lo %}L{% case mid %}M{% case hi %}H`, `{% case "9" %}9{% case lo %}L{% case 78 %}n{% case hi %}H{% default %}D`,
+				`{% case hi %}H{% case lo %}L{% case hi %}h`, `{% case nope %}N{% case hi %}H{% default %}D`} {
+				src := `{% switch user.Status %}` + cs + `{% endswitch %}|{% switch sv %}` + cs + `{% endswitch %}|{% switch bs %}{% case ba %}A{% case bb %}B{% default %}D{% endswitch %}`
+				c := &RCase{Tpls: []TplDef{{Key: "main", Src: src, KeepFmt: true}}, Meta: map[string]any{"variable-cases": cs, "status": st}}
+				c.Ops = []SOp{{Kind: "obj", Name: "user", Val: UserSpec{Id: "u", Status: st}}, {Kind: "static", Name: "sv", Val: int64(st)}, {Kind: "static", Name: "lo", Val: int64(10)}, {Kind: "static", Name: "mid", Val: int64(107)},
+					{Kind: "static", Name: "hi", Val: int64(78)}, {Kind: "string", Name: "bs", Val: "xy"}, {Kind: "string", Name: "ba", Val: "x"}, {Kind: "string", Name: "bb", Val: "xy"},
+					{Kind: "render", Key: "main"}, {Kind: "render", Key: "main"}}
+				cases = append(cases, c)
+				r.Dist["variable-cases"]++
+			}
+		}
 		runSessions(r, cases, outputDiffers)
+		helperNamespaces(r)
 	}
 	props["C03"] = func(r *Run) {
 		r.Rule = "random nestings and sequences of counter loops (every bound operator, both directions, trip counts 0,1,2,3,5) and range loops over []string, struct slices, missing and non-iterable sources, " +
@@ -393,36 +464,21 @@ func init() {
 				r.Dist["finished-loop-counter"]++
 			}
 		}
-		runSessions(r, cases, outputDiffers)
-		// names of loop variables are names (a relation on the real engine alone — the parser decides what is bound):
-		// a key or value whose name merely STARTS with an underscore, or contains "range" / "for", is bound like any other
-		for _, names := range [][2]string{{"_k", "v"}, {"__idx", "_v"}, {"k_", "v_"}, {"forK", "rangeV"}, {"k9", "v9"}} {
-			for _, body := range []string{`{%= K %}={%= V %},`, `{% if K == 1 %}one{% endif %}{%= V %}`} {
-				mk := func(k, v string) string {
-					b := strings.ReplaceAll(strings.ReplaceAll(body, "K", k), "V", v)
-					return `{% for ` + k + `, ` + v + ` := range lst sep ; %}` + b + `{% endfor %}|{% for ` + k + ` := 0; ` + k + ` < 2; ` + k + `++ %}{%= ` + k + ` %}{% endfor %}`
-				}
-				var outs [2]rendered
-				bad := ""
-				for x, src := range []string{mk(names[0], names[1]), mk("kk", "vv")} {
-					key, err, pan := regTpl(src, true)
-					if err != nil || pan != "" {
-						bad = fmt.Sprintf("Parse rejects %s: %v %s", src, err, pan)
-						break
-					}
-					ctx := dyntpl.NewCtx()
-					ctx.Set("lst", &[]string{"p", "q", "r"}, inspector.StringsInspector{})
-					outs[x] = renderSafe(key, ctx)
-				}
-				sig := "loop-variable-names " + names[0] + "," + names[1] + " body=" + body
-				r.Count(sig, true)
-				r.Dist["loop-variable-names"]++
-				if bad != "" || outs[0].ErrStr() != outs[1].ErrStr() || !bytes.Equal(outs[0].Out, outs[1].Out) {
-					r.Violate(sig, "a loop whose variables are named "+names[0]+" / "+names[1]+" renders differently from the same loop with plain names",
-						map[string]any{"source": mk(names[0], names[1]), "plain_source": mk("kk", "vv"), "output": string(outs[0].Out), "plain_output": string(outs[1].Out), "error": outs[0].ErrStr(), "problem": bad})
-				}
+		// … the same one level down: two or three successive counter loops INSIDE the body of an outer counter (or range)
+		// loop, the finished inner counters read during and after the later inner loops, in every outer iteration
+		for _, outer := range []string{`{% for o := 0; o < 2; o++ %}`, `{% for _, o := range lst %}`} {
+			for _, inner := range []string{`{% for i := 0; i < 2; i++ %}.{% endfor %}{% for j := 5; j < 7; j++ %}{%= i %}{%= j %},{% endfor %}[{%= i %}{%= j %}]`,
+				`{% for i := 0; i < 2; i++ %}.{% endfor %}{% for j := 5; j < 7; j++ %}{% for k := 0; k < i; k++ %}{%= k %}{% else %}E{% endfor %}{% endfor %}{% for l := 9; l > 7; l-- %}{%= i %}{%= j %}{%= l %};{% endfor %}`,
+				`{% for i := 3; i > 1; i-- %}{% endfor %}{% for j := 0; j < 1; j++ %}{% endfor %}{% if i == 1 %}one{% endif %}{% if j == 1 %}ONE{% endif %}{% for k := 0; k < 2; k++ %}{% break if i == k %}{%= k %}{% endfor %}`} {
+				src := outer + `<` + inner + `>{% endfor %}|{%= i %}{%= j %}`
+				c := &RCase{Tpls: []TplDef{{Key: "main", Src: src, KeepFmt: true}}, Meta: map[string]any{"sibling-inner-loops": inner, "outer": outer}}
+				c.Ops = []SOp{{Kind: "strs", Name: "lst", Val: []string{"a", "b"}}, {Kind: "render", Key: "main"}, {Kind: "render", Key: "main"}, {Kind: "reset"}, {Kind: "strs", Name: "lst", Val: []string{"a", "b"}}, {Kind: "render", Key: "main"}}
+				cases = append(cases, c)
+				r.Dist["sibling-inner-loops"]++
 			}
 		}
+		runSessions(r, cases, outputDiffers)
+		loopVarNames(r)
 	}
 	props["C14"] = func(r *Run) {
 		r.Rule = "random loop nests to depth 3 mixing counter and range loops with break / continue / lazybreak, depth N from 1 to nesting+1, conditional forms, sibling loops; Go output vs Lean interpreter model"
@@ -730,5 +786,38 @@ func init() {
 			}
 		}
 		dyntpl.VerifResetRegistry()
+	}
+}
+
+// loopVarNames: names of loop variables are names.
+func loopVarNames(r *Run) {
+	// names of loop variables are names (a relation on the real engine alone — the parser decides what is bound):
+	// a key or value whose name merely STARTS with an underscore, or contains "range" / "for", is bound like any other
+	for _, names := range [][2]string{{"_k", "v"}, {"__idx", "_v"}, {"k_", "v_"}, {"forK", "rangeV"}, {"k9", "v9"}} {
+		for _, body := range []string{`{%= K %}={%= V %},`, `{% if K == 1 %}one{% endif %}{%= V %}`} {
+			mk := func(k, v string) string {
+				b := strings.ReplaceAll(strings.ReplaceAll(body, "K", k), "V", v)
+				return `{% for ` + k + `, ` + v + ` := range lst sep ; %}` + b + `{% endfor %}|{% for ` + k + ` := 0; ` + k + ` < 2; ` + k + `++ %}{%= ` + k + ` %}{% endfor %}`
+			}
+			var outs [2]rendered
+			bad := ""
+			for x, src := range []string{mk(names[0], names[1]), mk("kk", "vv")} {
+				key, err, pan := regTpl(src, true)
+				if err != nil || pan != "" {
+					bad = fmt.Sprintf("Parse rejects %s: %v %s", src, err, pan)
+					break
+				}
+				ctx := dyntpl.NewCtx()
+				ctx.Set("lst", &[]string{"p", "q", "r"}, inspector.StringsInspector{})
+				outs[x] = renderSafe(key, ctx)
+			}
+			sig := "loop-variable-names " + names[0] + "," + names[1] + " body=" + body
+			r.Count(sig, true)
+			r.Dist["loop-variable-names"]++
+			if bad != "" || outs[0].ErrStr() != outs[1].ErrStr() || !bytes.Equal(outs[0].Out, outs[1].Out) {
+				r.Violate(sig, "a loop whose variables are named "+names[0]+" / "+names[1]+" renders differently from the same loop with plain names",
+					map[string]any{"source": mk(names[0], names[1]), "plain_source": mk("kk", "vv"), "output": string(outs[0].Out), "plain_output": string(outs[1].Out), "error": outs[0].ErrStr(), "problem": bad})
+			}
+		}
 	}
 }
